@@ -206,6 +206,12 @@ def branch_blocks(fn, selector):
             continue
         v, neg = strip_not(du, du.val_operand(st["discr"]))
         v = strip_casts(v)
+        if st.get("discr_ty") != "bool" and selector(du, v):
+            # `match <selector> { 1 => .., 2 => .., 3 => .., _ => .. }`
+            for val, tb in st["targets"]:
+                if tb != st["otherwise"]:
+                    out[val] = {b for b in cfg.live_blocks() if cfg.edge_dominates((sb, tb), b)}
+            continue
         if v[0] == "binop" and v[1] == "Eq" and selector(du, strip_casts(v[2])) and const_int(strip_casts(v[3])) is not None:
             n = const_int(strip_casts(v[3]))
             for val, tb in st["targets"]:
@@ -222,6 +228,10 @@ def run(ctx):
     chk.level = "proof"
     chk.analysed = ctx.analysed_summary()
     enc, dec = F.fns.get(ENC_SEQ), F.fns.get(DEC_SEQ)
+    if enc is not None:
+        enc = ctx.inl(enc)      # the 1/2/3-byte cases may be private functions (A11)
+    if dec is not None:
+        dec = ctx.inl(dec)
     r0 = chk.rule("anchors", "kernel functions exist", floor=5)
     for n in (ENC_SEQ, DEC_SEQ, N2C, C2N, TABLE):
         ok = n in F.fns
